@@ -356,9 +356,10 @@ class MessageAssembler:
                     'continuation'
                 )
                 self.reset()
-                # This packet is the first one of the new message
-                self.packet_count = 1
 
+            # This packet is the first one of a new message (stray continuation or
+            # end packets seen since the last message must not be counted)
+            self.packet_count = 1
             self.transaction_label = transaction_label
             self.signal_identifier = SignalIdentifier(pdu[1] & 0x3F)
             self.message_type = message_type
@@ -373,8 +374,9 @@ class MessageAssembler:
             Protocol.PacketType.CONTINUE_PACKET,
             Protocol.PacketType.END_PACKET,
         ):
-            if self.packet_count == 0:
+            if self.message is None:
                 logger.warning('unexpected continuation')
+                self.reset()
                 return
 
             if transaction_label != self.transaction_label:
